@@ -1739,11 +1739,13 @@ def run(ck: core.Check):
         "onnx.version_converter emits nodes valid at the target version and preserves meaning (validated per run by the checker/onnxruntime/numpy oracle, not modelled)",
         "value names assigned by the builder are unique (C02); converter-introduced names are distinct within one singleton model",
         "onnx.defs form compatibility (attribute names/types/requiredness/defaults, arities) as computed by translator/opset_facts.py",
+        "no value name chosen by the caller has the form <node name>__<converter name> (NoClash of qualify_preserves_wiring); converter names contain no '__' and node names do not end in '_' (checked on every observed conversion)",
     ]
     ck.trusted_base += [
         "translator/opset_facts.py (AST of _internal_op.py; introspection of spox._schemas.SCHEMAS and the shipped opset modules; onnx.defs)",
         "the observation wrappers around compile_graph / adapt_best_effort / adapt_node / adapt_inline in harness/props/c09.py",
         "harness/lib_c09.py numpy meanings of the program vocabulary",
+        "harness/lib_c09_qualify.py (stub replacing onnx.version_converter.convert_version while the real adapt_node runs; reading names back from NodeProtos / GraphProtos)",
     ]
 
 
